@@ -111,15 +111,16 @@ type Contracts struct {
 	Immut   map[string]map[string]bool // pkgpath -> "Type.field"
 	Ctors   map[string]bool            // display names of start-up functions that may write immutable fields
 	GhostGroups [][]string             // ghosts that always change together: naming one in `modifies` names all
+	ChanInvs map[string]*ChanInv       // pkgpath.Type.field -> invariant on every value sent into that channel
 	Files   []string
 }
 
 func newContracts() *Contracts {
-	return &Contracts{Externs: map[string]*FuncContract{}, Preds: map[string]*Pred{}, Ghosts: map[string]*GhostVar{}, Immut: map[string]map[string]bool{}, Ctors: map[string]bool{}}
+	return &Contracts{Externs: map[string]*FuncContract{}, Preds: map[string]*Pred{}, Ghosts: map[string]*GhostVar{}, Immut: map[string]map[string]bool{}, Ctors: map[string]bool{}, ChanInvs: map[string]*ChanInv{}}
 }
 
 var topKeywords = map[string]bool{"func": true, "extern": true, "pred": true, "ghost": true, "lock": true,
-	"lemma": true, "axiom": true, "benign": true, "fn": true, "immutable": true, "constructors": true, "ghostgroup": true}
+	"lemma": true, "axiom": true, "benign": true, "fn": true, "immutable": true, "constructors": true, "ghostgroup": true, "chaninv": true}
 var clauseKeywords = map[string]bool{"props": true, "arith": true, "requires": true, "ensures": true,
 	"modifies": true, "loop": true, "invariant": true, "decreases": true, "unroll": true, "trusted": true,
 	"maypanic": true, "guarantee": true, "guards": true, "ghostparam": true, "inst": true, "onreturn": true, "onspawn": true, "lockassume": true, "assume": true, "nochan": true}
@@ -129,6 +130,17 @@ type logicalLine struct {
 	name string // [name]
 	rest string
 	line int
+}
+
+var chanInvRe = regexp.MustCompile(`^\s*([A-Za-z_][A-Za-z0-9_]*\.[A-Za-z_][A-Za-z0-9_]*)\s*\(\s*([A-Za-z_][A-Za-z0-9_]*)\s*\)\s*:=\s*(.*)$`)
+
+// ChanInv: `chaninv Type.field(v) := expr` - every value sent into the channel stored in that field satisfies
+// expr (obligation at each send), so every value received from it does (assumed at each receive). The
+// expression may only talk about v itself and immutable fields (it is evaluated in different states).
+type ChanInv struct {
+	Key, Short, Param, Src, Pkg, File string
+	Expr                              Expr
+	Line                              int
 }
 
 var kwRe = regexp.MustCompile(`^([a-z]+)(\[[^\]]*\])?(\s|$)`)
@@ -423,6 +435,21 @@ func (cs *Contracts) loadFile(path, pkgPath string) error {
 			}
 			curLemma = &Lemma{Name: ll.name, Clause: c, Axiom: l.kw == "axiom", OptIn: optin, Pkg: pkgPath}
 			cs.Lemmas = append(cs.Lemmas, curLemma)
+		case "chaninv":
+			// chaninv Type.field(v) := expr
+			m := chanInvRe.FindStringSubmatch(l.rest)
+			if m == nil {
+				return fmt.Errorf("%s:%d: chaninv Type.field(v) := expr", path, l.line)
+			}
+			ce, err := parseSpec(m[3])
+			if err != nil {
+				return fmt.Errorf("%s:%d: %v", path, l.line, err)
+			}
+			key := pkgPath + "." + m[1]
+			if _, dup := cs.ChanInvs[key]; dup {
+				return fmt.Errorf("%s:%d: second chaninv for %s", path, l.line, m[1])
+			}
+			cs.ChanInvs[key] = &ChanInv{Key: key, Short: m[1], Param: m[2], Expr: ce, Src: strings.Join(strings.Fields(m[3]), " "), Pkg: pkgPath, File: path, Line: l.line}
 		case "ghostgroup":
 			var g []string
 			for _, b := range strings.Split(l.rest, ",") {
